@@ -137,9 +137,11 @@ def find_islands(im, bkg, rms,
                 #               .format(i,data.shape))
                 continue
 
+            # the bounding box is that of the unmasked pixels, whatever their
+            # values (an island pixel may have a value of exactly zero)
             island = PixelIsland()
             island.calc_bounding_box(
-                np.array(np.nan_to_num(data_box), dtype=bool),
+                ~island_mask,
                 offsets=[xmin, ymin]
             )
             island.set_mask(island_mask)
